@@ -52,7 +52,7 @@ LIST_ROUTES = ("Return(value=Call(func=Name(id='str', ctx=Load()), args=[Call(fu
 class Tr:
     def __init__(self, path):
         self.path = path
-        self.tree = normalise(ast.parse(open(path).read(), filename=path))
+        self.tree = normalise(ast.parse(open(path).read(), filename=path), path)
         self.imports = {}     # local name -> Lib field
         self.raising = {}     # local name -> bool
         self.tables = {}      # dict name -> ('exc'|'pure', [(key, lean expr)])
